@@ -13,9 +13,10 @@ content := dir | (other xBYTES) | (class p|v class)
 entry   := (#name attr content)
 jar     := (entry…)
 
-Answers of `merge-class` / `merge-jars`: `ok <content|jar>`, `err e`, `ok (panic <site>)` where site is `merge_from_client`
-(the `assert_eq!` of `merge_from_client`) or `inner_classes` (the `assert_eq!` in the InnerClasses closure); the harness
-catches the unwinding of the real code and names the site from the panic message.
+Answers of `merge-class` / `merge-jars`: `ok <content|jar>`, `err e`, `ok (panic <site>)`. Since 9bfd462 merge.rs has no
+reachable panic (`Thm.C13.merge_jar_no_panic`): the model never answers `ok (panic …)`; the harness still runs the real
+code under `catch_unwind` and would answer `ok (panic merge.rs|other)` (a disagreement, and a failure of the
+`oracle-no-panic` / `oracle-jar-no-panic` oracles, which have no domain restriction).
 -/
 
 open Driver Sexp MergeJar
@@ -251,8 +252,10 @@ def handleC13 (op : String) (args : List Sexp) : Option Ans :=
     pure (if isOk == mergeOk c s then pass else fail (if isOk then "ok-outside-mergeOk" else "not-ok-inside-mergeOk"))
   | "oracle-no-panic", [c, s] => do
     let c ← classFrom c; let s ← classFrom s
-    if !noPanicB c s then pure ood else
     pure (match mergeClassEntry ClsRepr.parsed c s with | Outcome.panic _ => fail "panic" | _ => pass)
+  | "oracle-jar-no-panic", [c, s] => do
+    let c ← jarFrom c; let s ← jarFrom s
+    pure (match mergeJar c s with | Outcome.panic _ => fail "panic" | _ => pass)
   | "oracle-entries", [c, s] => do
     let c ← jarFrom c; let s ← jarFrom s
     if !jarDomain c s then pure ood else
